@@ -392,8 +392,10 @@ INV = {
 ACTIONS = ["Split", "Reveal", "Mask", "Unmask", "SetObserved", "Save", "Load", "CliReveal", "CliMeta"]
 
 
-def lifecycle_cfg(tlc, focus, depth, export):
+def lifecycle_cfg(tlc, focus, depth, export, quick=False):
     inv, props = INV[focus]
+    if quick:       # SameNameSameId follows from IdStable and is quadratic in the rows: thorough tier only
+        inv = [i for i in inv if i != "SameNameSameId"]
     return tlc.cfg(constants={"Zero": 1, "MaxDepth": depth, "Paths": {1, 2}, "Export": export},
                    invariants=inv + ["ExportPath"], properties=props, constraint="Bound", action_constraint="NoIdleRuns",
                    view="View")
@@ -415,7 +417,7 @@ def run_lifecycle(ctx, focus):
             fx.prepared()
             fjson = fx.to_json()
             d = depth if fi < (2 if ctx.quick else 4) else max(2, depth - 1)
-            r = ctx.tlc("Lifecycle", lifecycle_cfg(tlc, focus, d, True), note="fixture %s depth %d" % (fx.name, d),
+            r = ctx.tlc("Lifecycle", lifecycle_cfg(tlc, focus, d, True, quick=ctx.quick), note="fixture %s depth %d" % (fx.name, d),
                         files={"fixture.json": fjson}, env={"FIXTURE_FILE": "fixture.json"}, coverage=True, workers=8)
             if r.violation:
                 ctx.violation("design-level: Lifecycle violates %s on fixture %s" % (r.violation, fx.name), {"kind": "tlc", "tlc": r.violation_text})
